@@ -340,6 +340,24 @@ func buildInvocation(c cast, s InvSpec, prf []cid.Cid) (*invocation.Token, error
 		for _, kv := range s.Args[n:] {
 			opts = append(opts, invocation.WithArgument(kv.Key, valToGo(kv.V)))
 		}
+	case "overlap":
+		// options whose keys overlap: every entry first through WithArgument, then the whole set again
+		// through WithArguments with OTHER values for the first half (documented: the later value for
+		// a key that is already there is dropped without an error)
+		for _, kv := range s.Args {
+			opts = append(opts, invocation.WithArgument(kv.Key, valToGo(kv.V)))
+		}
+		a := args.New()
+		for i, kv := range s.Args {
+			var v any = valToGo(kv.V)
+			if i < (len(s.Args)+1)/2 {
+				v = "dsim: a later value for a key that is already there"
+			}
+			if err := a.Add(kv.Key, v); err != nil {
+				return nil, fmt.Errorf("args.Add: %w", err)
+			}
+		}
+		opts = append(opts, invocation.WithArguments(a))
 	case "builder":
 		b := args.NewBuilder()
 		for _, kv := range s.Args {
